@@ -12,7 +12,11 @@
 
    A record is an abstract [A]; a dictionary is the list of its records.
    [Eager]: a send appends to the sender's channel.  [Sync]: a send and its receive are one
-   joint step (the writer must still be receiving), channels stay empty.
+   joint step (the writer must still be receiving and, per-sender FIFO, nothing older of the
+   same sender may be queued).
+   Two send modes are parameters: [dm] for the patch dictionaries, [sm] for the sentinel.
+     pinned code   : dictionaries and sentinel are plain `send`s       (dm, sm arbitrary)
+     repaired code : dictionaries are `ssend`s (commit aeec5f0): dm = Sync, sm arbitrary.
    The scatter is an enqueue in both modes (more interleavings than rendezvous would allow,
    which only strengthens the no-loss theorems).  No proofs in this file. *)
 From Verif Require Import Prelude Dispatch.
@@ -44,61 +48,61 @@ Section MpiWrite.
     | _, _ => l
     end.
 
-  Inductive wstep (m : mode) : wst -> wst -> Prop :=
+  Inductive wstep (dm sm : mode) : wst -> wst -> Prop :=
   (* reader: scatter_data_chunk *)
   | w_scatter own splits rest l rc wc st sd :
       length splits = length l ->
-      wstep m (mkWS WChunk ((own, splits) :: rest) l rc wc st sd)
+      wstep dm sm (mkWS WChunk ((own, splits) :: rest) l rc wc st sd)
               (mkWS (WSend own) rest (deliver splits l) rc wc st sd)
   (* reader: COMM.send(patches, dest=writer) *)
   | w_rsend_eager own cs l rc wc st sd :
-      m = Eager ->
-      wstep m (mkWS (WSend own) cs l rc wc st sd) (mkWS WChunk cs l (rc ++ [Dict own]) wc st sd)
+      dm = Eager ->
+      wstep dm sm (mkWS (WSend own) cs l rc wc st sd) (mkWS WChunk cs l (rc ++ [Dict own]) wc st sd)
   | w_rsend_sync own cs l rc wc sd :
-      m = Sync ->
-      wstep m (mkWS (WSend own) cs l rc wc false sd) (mkWS WChunk cs l rc wc false (sd ++ own))
+      dm = Sync ->
+      wstep dm sm (mkWS (WSend own) cs l rc wc false sd) (mkWS WChunk cs l rc wc false (sd ++ own))
   (* worker j: receive its split, send its dictionary *)
   | w_proc_eager j p cs l rc wc st sd d ds q :
-      m = Eager -> nth_error l j = Some (mkWk (d :: ds) false) -> nth_error wc j = Some q ->
-      wstep m (mkWS p cs l rc wc st sd)
+      dm = Eager -> nth_error l j = Some (mkWk (d :: ds) false) -> nth_error wc j = Some q ->
+      wstep dm sm (mkWS p cs l rc wc st sd)
               (mkWS p cs (upd j (mkWk ds false) l) rc (upd j (q ++ [Dict d]) wc) st sd)
   | w_proc_sync j p cs l rc wc sd d ds :
-      m = Sync -> nth_error l j = Some (mkWk (d :: ds) false) ->
-      wstep m (mkWS p cs l rc wc false sd) (mkWS p cs (upd j (mkWk ds false) l) rc wc false (sd ++ d))
+      dm = Sync -> nth_error l j = Some (mkWk (d :: ds) false) ->
+      wstep dm sm (mkWS p cs l rc wc false sd) (mkWS p cs (upd j (mkWk ds false) l) rc wc false (sd ++ d))
   (* worker j has processed all chunks: enters the barrier of the worker communicator *)
   | w_enter j p l rc wc st sd :
       nth_error l j = Some (mkWk [] false) ->
-      wstep m (mkWS p [] l rc wc st sd) (mkWS p [] (upd j (mkWk [] true) l) rc wc st sd)
+      wstep dm sm (mkWS p [] l rc wc st sd) (mkWS p [] (upd j (mkWk [] true) l) rc wc st sd)
   | w_renter l rc wc st sd :
-      wstep m (mkWS WChunk [] l rc wc st sd) (mkWS WBarW [] l rc wc st sd)
+      wstep dm sm (mkWS WChunk [] l rc wc st sd) (mkWS WBarW [] l rc wc st sd)
   | w_barrier cs l rc wc st sd :
       forallb wbar l = true ->
-      wstep m (mkWS WBarW cs l rc wc st sd) (mkWS WStop cs l rc wc st sd)
+      wstep dm sm (mkWS WBarW cs l rc wc st sd) (mkWS WStop cs l rc wc st sd)
   (* reader: the sentinel, after the worker barrier *)
   | w_rstop_eager cs l rc wc st sd :
-      m = Eager ->
-      wstep m (mkWS WStop cs l rc wc st sd) (mkWS WBarrier cs l (rc ++ [Stop]) wc st sd)
-  | w_rstop_sync cs l rc wc sd :
-      m = Sync ->
-      wstep m (mkWS WStop cs l rc wc false sd) (mkWS WBarrier cs l rc wc true sd)
+      sm = Eager ->
+      wstep dm sm (mkWS WStop cs l rc wc st sd) (mkWS WBarrier cs l (rc ++ [Stop]) wc st sd)
+  | w_rstop_sync cs l wc sd :
+      sm = Sync ->
+      wstep dm sm (mkWS WStop cs l [] wc false sd) (mkWS WBarrier cs l [] wc true sd)
   (* writer: recv(source=ANY_SOURCE, tag=1) *)
   | w_take_r p cs l d rc wc sd :
-      wstep m (mkWS p cs l (Dict d :: rc) wc false sd) (mkWS p cs l rc wc false (sd ++ d))
+      wstep dm sm (mkWS p cs l (Dict d :: rc) wc false sd) (mkWS p cs l rc wc false (sd ++ d))
   | w_take_stop p cs l rc wc sd :
-      wstep m (mkWS p cs l (Stop :: rc) wc false sd) (mkWS p cs l rc wc true sd)
+      wstep dm sm (mkWS p cs l (Stop :: rc) wc false sd) (mkWS p cs l rc wc true sd)
   | w_take_w j p cs l rc wc sd d q :
       nth_error wc j = Some (Dict d :: q) ->
-      wstep m (mkWS p cs l rc wc false sd) (mkWS p cs l rc (upd j q wc) false (sd ++ d))
+      wstep dm sm (mkWS p cs l rc wc false sd) (mkWS p cs l rc (upd j q wc) false (sd ++ d))
   (* COMM.Barrier() at the end of write_patches *)
   | w_final cs l rc wc sd :
-      wstep m (mkWS WBarrier cs l rc wc true sd) (mkWS WDone cs l rc wc true sd).
+      wstep dm sm (mkWS WBarrier cs l rc wc true sd) (mkWS WDone cs l rc wc true sd).
 
   Definition winit (cs : list chunk) (k : nat) : wst :=
     mkWS WChunk cs (repeat (mkWk [] false) k) [] (repeat [] k) false [].
 
-  Inductive wreach (m : mode) (s0 : wst) : wst -> Prop :=
-  | wreach_refl : wreach m s0 s0
-  | wreach_step s s' : wreach m s0 s -> wstep m s s' -> wreach m s0 s'.
+  Inductive wreach (dm sm : mode) (s0 : wst) : wst -> Prop :=
+  | wreach_refl : wreach dm sm s0 s0
+  | wreach_step s s' : wreach dm sm s0 s -> wstep dm sm s s' -> wreach dm sm s0 s'.
 
   (* the input: all records of all chunks *)
   Definition chunk_recs (c : chunk) : list A := fst c ++ concat (snd c).
@@ -108,7 +112,8 @@ Section MpiWrite.
   (* dictionaries sent to the writer and never received *)
   Definition unreceived (s : wst) : list A := dicts (rch s) ++ flat_map dicts (wch s).
 
-  (* ---- executable step (eager mode; used for the refutation witness) ---- *)
+  (* ---- executable step (dm = sm = Eager: the pinned code under buffered sends; used for the
+        refutation witness) ---- *)
   Definition wstep_with (c : wchoice) (s : wst) : option wst :=
     match c with
     | XScatter =>
